@@ -44,7 +44,7 @@ def prepare(name="lowered", extra_objects=None):
 
 
 def _run_shard(args):
-    (ldir, shard, nshards, nprof, maxlen, only, deep, workers, timeout, outpath, tag, simulate, faults, fault_every, const_path, det_after) = args
+    (ldir, shard, nshards, nprof, maxlen, only, deep, workers, timeout, outpath, tag, simulate, faults, fault_every, const_path, det_after, extra_env) = args
     env = {
         "WOWM_OBJECTS": os.path.join(ldir, "objects.ndjson"),
         "WOWM_BLOCKS": os.path.join(ldir, "blocks.ndjson"),
@@ -56,6 +56,8 @@ def _run_shard(args):
     }
     if det_after is not None:
         env["WOWM_DET_AFTER"] = det_after
+    if extra_env:
+        env.update(extra_env)
     with open(outpath, "w") as sink:
         res = C.run_tlc("WowmWire", workers=workers, timeout=timeout, env=env,
                         name="%s-shard%d" % (tag, shard), replay_sink=sink, keep_replay_in_memory=False,
@@ -65,13 +67,13 @@ def _run_shard(args):
 
 
 def run_wire(ldir, outdir, nshards=4, workers=4, nprof=1, maxlen=2, only="", deep=False, timeout=1500,
-             tag="wire", simulate=None, faults="0", fault_every=1, const_path=None, det_after=None):
+             tag="wire", simulate=None, faults="0", fault_every=1, const_path=None, det_after=None, extra_env=None):
     """Returns (list of shard stats, list of record file paths)."""
     os.makedirs(outdir, exist_ok=True)
     jobs = []
     for s in range(nshards):
         jobs.append((ldir, s, nshards, nprof, maxlen, only, deep, workers, timeout,
-                     os.path.join(outdir, "records-%d.ndjson" % s), tag, simulate, faults, fault_every, const_path, det_after))
+                     os.path.join(outdir, "records-%d.ndjson" % s), tag, simulate, faults, fault_every, const_path, det_after, extra_env))
     t0 = time.time()
     with concurrent.futures.ThreadPoolExecutor(max_workers=nshards) as ex:
         stats = list(ex.map(_run_shard, jobs))
